@@ -35,7 +35,10 @@ def demo_cmd(meta, mid=None):
         return OVERRIDE[mid]
     c = meta["demo_cmd"]
     m = re.search(r"((?:cd \S+ && )?go test.*)$", c)
-    return m.group(1)
+    cmd = m.group(1)
+    if cmd.count(")") > cmd.count("("):   # the author wrapped it in a subshell
+        cmd = cmd.rstrip().rstrip(")")
+    return cmd
 
 
 def confirm(mid):
